@@ -274,10 +274,10 @@ pub struct EvalOut {
     pub ui: Vec<Vec<UiToken>>,
 }
 
-/// Evaluate `text` on `calc`; a panic is returned as Err with its call site.
-pub fn eval_on(calc: &SmartCalc, lang: &str, text: &str) -> Result<EvalOut, PanicInfo> {
-    guarded(|| {
-        let r = calc.execute(lang, text);
+/// the result type of execute/execute_session lives in a private module and cannot be named
+macro_rules! convert_result {
+    ($r:expr) => {{
+        let r = $r;
         let mut slots = vec![];
         let mut ui = vec![];
         for l in r.lines.iter() {
@@ -296,7 +296,26 @@ pub fn eval_on(calc: &SmartCalc, lang: &str, text: &str) -> Result<EvalOut, Pani
             }
         }
         EvalOut { status: r.status, slots, ui }
+    }};
+}
+
+/// Evaluate `text` on `calc`; a panic is returned as Err with its call site.
+pub fn eval_on(calc: &SmartCalc, lang: &str, text: &str) -> Result<EvalOut, PanicInfo> {
+    guarded(|| convert_result!(calc.execute(lang, text)))
+}
+
+/// set_text + execute_session on a (re-used) session
+pub fn eval_session(calc: &SmartCalc, session: &mut smartcalc::Session, lang: &str, text: &str) -> Result<EvalOut, PanicInfo> {
+    guarded(|| {
+        session.set_language(lang.to_string());
+        session.set_text(text.to_string());
+        convert_result!(calc.execute_session(session))
     })
+}
+
+/// execute_session without setting a text
+pub fn eval_session_again(calc: &SmartCalc, session: &smartcalc::Session) -> Result<EvalOut, PanicInfo> {
+    guarded(|| convert_result!(calc.execute_session(session)))
 }
 
 impl Worker {
